@@ -19,8 +19,28 @@ import (
 func (c *Ctx) ruleNextKey() {
 	c.doc("R-NEXTKEY", "findNextNode returns an entry only on the edge bytes.Compare(searchKey, currentFullKey) == -1 with searchKey the unmodified parameter; findNextNode and findNextKeyOnChildren hand the search key down unchanged; children are visited in ascending index order from the starting index and the first hit is returned")
 	fn := c.fn(inmemDir, "findNextNode")
-	fc := c.fn(inmemDir, "findNextKeyOnChildren")
-	if fn == nil || fc == nil {
+	if fn == nil {
+		return
+	}
+	// the children scanner is found by its role, not its name: the callee of findNextNode that calls findNextNode back
+	var fc *ssa.Function
+	eachInstr(fn, func(_ *ssa.BasicBlock, _ int, in ssa.Instruction) {
+		call, ok := in.(*ssa.Call)
+		if !ok {
+			return
+		}
+		g := call.Call.StaticCallee()
+		if g == nil || g == fn || g.Pkg != fn.Pkg || len(g.Blocks) == 0 {
+			return
+		}
+		eachInstr(g, func(_ *ssa.BasicBlock, _ int, in2 ssa.Instruction) {
+			if c2, ok := in2.(*ssa.Call); ok && c2.Call.StaticCallee() == fn {
+				fc = g
+			}
+		})
+	})
+	if fc == nil {
+		c.unresolved("the children scanner mutually recursive with pkg/trie/inmemory.findNextNode")
 		return
 	}
 	key := fn.Params[2]
@@ -54,7 +74,7 @@ func (c *Ctx) ruleNextKey() {
 	if n == 0 {
 		c.ob("R-NEXTKEY", "findNextNode:entry-return", fn.Pos(), false, "no entry-returning path found (anchor changed)")
 	}
-	pass := func(f *ssa.Function, keyParam *ssa.Parameter, calleeName2 string, argIdx int) {
+	pass := func(f *ssa.Function, keyParam *ssa.Parameter, calleeName2 string, argIdx int, role string) {
 		m := 0
 		eachInstr(f, func(_ *ssa.BasicBlock, _ int, in ssa.Instruction) {
 			call, ok := in.(*ssa.Call)
@@ -62,12 +82,12 @@ func (c *Ctx) ruleNextKey() {
 				return
 			}
 			m++
-			c.ob("R-NEXTKEY", fmt.Sprintf("%s->%s:search-key-unchanged#%d", f.Name(), calleeName2, m), call.Pos(), call.Call.Args[argIdx] == ssa.Value(keyParam),
+			c.ob("R-NEXTKEY", fmt.Sprintf("%s:search-key-unchanged#%d", role, m), call.Pos(), call.Call.Args[argIdx] == ssa.Value(keyParam),
 				f.Name()+" must hand its search key parameter down unchanged (a truncated or cleared search key lets smaller keys be returned)")
 		})
 	}
-	pass(fn, fn.Params[2], "findNextKeyOnChildren", 2)
-	pass(fc, fc.Params[2], "findNextNode", 2)
+	pass(fn, fn.Params[2], fc.Name(), 2, "findNextNode->children-scanner")
+	pass(fc, fc.Params[2], "findNextNode", 2, "children-scanner->findNextNode")
 	// ascending scan from startingAt
 	asc := false
 	eachInstr(fc, func(_ *ssa.BasicBlock, _ int, in ssa.Instruction) {
@@ -88,7 +108,7 @@ func (c *Ctx) ruleNextKey() {
 			}
 		}
 	})
-	c.ob("R-NEXTKEY", "findNextKeyOnChildren:ascending-from-start", fc.Pos(), asc, "children are scanned in ascending index order starting at the given index")
+	c.ob("R-NEXTKEY", "children-scanner:ascending-from-start", fc.Pos(), asc, "children are scanned in ascending index order starting at the given index")
 }
 
 // R-COMMITORDER: triedb.commit deletes the replaced nodes before it writes the new ones (same batch).
